@@ -463,8 +463,109 @@ class Session(BusSession):
         return re.sub(r'serial=\d+', 'serial=*', self.impl_key()) + '#' + self.reg.key() + '#' + live + ('#stalled:%d' % len(self.backlog) if self.stalled else '')
 
 
+class ThrottleSession(BusSession):
+    """max_incoming_bytes is small: while a recipient does not read, what its senders have sent stays alive inside the bus and
+    the bus stops READING from those senders; when the recipient drains, reading resumes.  Nothing may be lost, duplicated
+    or reordered by the pause, and other clients are served throughout."""
+
+    def __init__(self, params=None):
+        BusSession.__init__(self, params or {})
+        self.connect_slot('B')
+        self.bus.h.cmd('SRVSOCKBUF 4608')
+        self.connect_slot('A')
+        self.connect_slot('C')
+        self.bus.h.cmd('SOCKBUF %d 0 2048' % self.slots['B'])
+        for l in list(self.inbox):
+            self.take(l)
+
+    def config(self):
+        return B.make_config(limits={'max_incoming_bytes': self.params.get('limit', 4000)})
+
+
+def task_throttle(scns):
+    out = []
+    n = 0
+    for limit, count, kind in scns:
+        case = {'throttle': [limit, count, kind]}
+        try:
+            s = ThrottleSession({'limit': limit})
+            s.bus.h.cmd('NODRAIN %d 1' % s.slots['B'])
+            toks = []
+            ca = s.slots['A']
+            for i in range(count):
+                ser = s.bus.next_serial(ca)
+                tok = b'Q%03d' % i + b'p' * 1500
+                toks.append(tok)
+                if kind == 'call':
+                    m = R.method_call(ser, s.uname['B'], '/t', 't.i', 'Ping', [R.S(tok)], flags=1)
+                else:
+                    m = R.signal(ser, '/t', 't.i', 'Sig', [R.S(tok)], dest=s.uname['B'])
+                s.send('A', m)
+            gser = s.bus.next_serial(ca)
+            s.send('A', R.bus_call(gser, 'GetId'))
+            # a bystander is served while A is being held back
+            cser = s.bus.next_serial(s.slots['C'])
+            s.send('C', R.bus_call(cser, 'GetId'))
+            if len([o for o in s.take('C') if o.kind == R.MT_RETURN and o.rserial == cser]) != 1:
+                out.append(Violation('bystander-not-served', 'throttle', 'while a sender is held back by max_incoming_bytes=%d a third client got no answer to GetId' % limit, case))
+            s.bus.h.cmd('NODRAIN %d 0' % s.slots['B'])
+
+            def settle():
+                for _ in range(60):
+                    s.bus.pump()
+                    o = s.bus.recvall()
+                    s._distribute(o)
+                    if not o:
+                        break
+            settle()
+            gotb = [o.body[0][1] for o in s.take('B') if o.body and o.body[0][0] == b's' and o.body[0][1][:1] == b'Q']
+            ga = [o for o in s.take('A') if o.rserial == gser]
+            if gotb != toks or len(ga) != 1:
+                # everything the sender wrote is inside the bus and the recipient has drained, yet something has not been
+                # processed: it must not take further input from the sender to get it moving (judged separately: the
+                # exactly-once / in-order / resumed clauses below are judged after one more byte of input has arrived)
+                out.append(Violation('delivery-waits-for-more-input', 'throttle',
+                                     '%d %s messages of 1.5 KB to a recipient that was not reading (max_incoming_bytes %d): after the recipient drained, %d of them and %d of 1 own requests had been processed; the rest sits in the bus until the sender writes again' %
+                                     (count, kind, limit, len(gotb), len(ga)), case))
+            pser = s.bus.next_serial(ca)
+            s.send('A', R.bus_call(pser, 'GetId'))
+            settle()
+            gotb += [o.body[0][1] for o in s.take('B') if o.body and o.body[0][0] == b's' and o.body[0][1][:1] == b'Q']
+            later = s.take('A')
+            ga += [o for o in later if o.rserial == gser]
+            gp = [o for o in later if o.rserial == pser]
+            n += 1
+            if gotb != toks:
+                lost = [t[:4] for t in toks if t not in gotb]
+                out.append(Violation('unicast-lost' if lost else 'unicast-order-or-duplicate', 'throttle',
+                                     '%d %s messages of 1.5 KB to a recipient that was not reading (max_incoming_bytes %d): it received %d after resuming (and one more request of the sender), missing %r, order kept: %s' %
+                                     (count, kind, limit, len(gotb), lost[:3], gotb == [t for t in toks if t in gotb]), case))
+            if len(ga) != 1 or ga[0].kind != R.MT_RETURN or len(gp) != 1:
+                out.append(Violation('sender-not-resumed', 'throttle', 'the sender\'s own requests behind %d queued messages were answered %r / %r after the recipient drained' % (count, ga, gp), case))
+            if s.eof.get('A') or s.eof.get('B'):
+                out.append(Violation('disconnected', 'throttle', 'a well-behaved client was disconnected (A eof=%s, B eof=%s)' % (s.eof.get('A'), s.eof.get('B')), case))
+        except HarnessDied as e:
+            out.append(crash_violation(e, case))
+            worker_bus().h.close()
+    return {'viol': [v.to_json() for v in out], 'n': n}
+
+
 def run(ctx):
     quick = ctx.tier == 'quick'
+    scns = [(lim, cnt, k) for lim in (2000, 4000, 20000) for cnt in (3, 12) for k in ('call', 'signal')]
+    from ..engine import Pool
+    pool = Pool()
+    nthr = 0
+    try:
+        for r in pool.imap(task_throttle, [scns[i:i + 2] for i in range(0, len(scns), 2)]):
+            if '__crash__' in r:
+                ctx.add_violation(Violation('crash', r['__crash__'], r['stderr'], {'task': r['task']}))
+                continue
+            ctx.add_violations(r['viol'])
+            nthr += r['n']
+    finally:
+        pool.close()
+    ctx.hit('sender-throttle-scenarios', nthr)
     st = explore.bfs(ctx, FACTORY, {'small': quick}, max_depth=5 if quick else 6, ops_chunk=8)
     ctx.coverage.update({
         'states': st['states'], 'transitions': st['transitions'], 'traces_validated_against_impl': st['transitions'],
@@ -477,4 +578,7 @@ def run(ctx):
 
 
 def replay(case):
+    if 'throttle' in case:
+        r = task_throttle([tuple(case['throttle'])])
+        return [Violation.from_json(v) for v in r['viol']]
     return explore.replay_history(FACTORY, case['params'], case['history'])
